@@ -11,6 +11,8 @@ import (
 	"golang.org/x/tools/go/ssa"
 )
 
+var debugHooks = map[string]func(*Engine){}
+
 func main() {
 	if len(os.Args) < 2 {
 		fmt.Println("usage: govc sweep|check|dump ...")
@@ -23,6 +25,15 @@ func main() {
 		os.Exit(cmdCheck(os.Args[2:]))
 	case "dump":
 		cmdDump(os.Args[2:])
+	case "debug":
+		e, err := LoadEngine("/repo")
+		if err != nil {
+			fmt.Println(err)
+			os.Exit(3)
+		}
+		if h := debugHooks[os.Args[2]]; h != nil {
+			h(e)
+		}
 	case "tables":
 		e, err := LoadEngine("/repo")
 		if err != nil {
@@ -191,5 +202,17 @@ func cmdDump(args []string) {
 	}
 	for _, se := range e.specErrs {
 		fmt.Println("SPEC-ERROR", se)
+	}
+}
+
+func init() {
+	debugHooks["addrtaken"] = func(e *Engine) {
+		for k, fs := range e.addrTaken {
+			var ns []string
+			for _, f := range fs {
+				ns = append(ns, f.Name())
+			}
+			fmt.Printf("%s: %v\n", k, ns)
+		}
 	}
 }
